@@ -191,26 +191,27 @@ TABLE = {
 
 # clauses added after the second round of independently seeded changes (DESIGN.md 8.6); appended to the decided text
 ROUND2 = {
-    'C01': 'Inv-C: whenever a todo set grows the node is on the queue when the function returns, and every queue rebuild keeps nodes with pending targets; schedule.find selects by equality of the tag',
+    'C01': 'Inv-C: whenever a todo set grows the node is on the queue when the function returns, and every queue rebuild keeps nodes with pending targets; schedule.find selects by equality of the tag; iteration is over a snapshot (Unique.__iter__ copies; no loop changes the container it iterates)',
     'C03': 'jobs leave the dispatch batch only per job or in farm.clear; every step of the cloud hiring exchange continues, hires or hands the job back; '
     'doing shrinks only where the reply is applied (ONE known finding: purge strips doing of executing dependents) and queue rebuilds keep queued entries',
-    'C04': 'the idle observers re-read the live binding on every poll',
-    'C05': "the worker's try around Context.run catches BaseException",
+    'C04': 'the idle observers re-read the live binding on every poll; _put selects the cloud list only under the condition under which dispatch drains it; complete retires the target before it calls into the journal',
+    'C05': "the worker's try around Context.run catches BaseException; nothing in the prologue of Hand._res can raise on its own input before the routing",
     'C06': "the server's set branch stores the blob name unconditionally between move and the reply",
+    'C07': 'the shelve server never sends a reply from an except / finally path',
     'C08': 'util.append stores into the persisted table before it extends the in-memory index',
     'C09': 'no module on the naming / graph path captures a run-time-assigned dawgie.context setting at import time; no one-shot iterator held in a local of the graph builder is consumed inside a loop that runs more than once per binding',
     'C10': 'every db.archive implementation delivers the continuation exactly once; while a background step is outstanding every trigger with an edge '
-    'from that state is refused as the first effect of its before-callback or, if accepted, the machine settles at rest after all steps (exception semantics modelled); no FSM method writes the transitioning marker after it handed its step to the thread pool',
-    'C12': 'pollers re-read the live state per iteration; FSM.reset is called only by the constructor and the reload edge; an unknown priority text reaches the documented fallback; the callback that may fire the reload is a success-only callback of the poller deferred',
-    'C13': 'nothing that can raise is called between taking the lock and answering the client (callees followed two levels)',
-    'C11': 'outside dawgie.context the live revision is assigned only by code of the reload step (reached from FSM.reload, not from FSM.load)',
+    'from that state is refused as the first effect of its before-callback or, if accepted, the machine settles at rest after all steps (exception semantics modelled); no FSM method writes the transitioning marker after it handed its step to the thread pool; the guard of the transitioning setter is evaluated for all 9 (requested, current) pairs',
+    'C12': 'pollers re-read the live state per iteration; FSM.reset is called only by the constructor and the reload edge; an unknown priority text reaches the documented fallback; the callback that may fire the reload is a success-only callback of the poller deferred; the submission latch is released only by the running Process; Priority(<text>) is the plain Enum lookup',
+    'C13': 'nothing that can raise is called between taking the lock and answering the client (callees followed two levels); every call chain into context.unlock_db starts in the release request or the loss of the owning connection',
+    'C11': 'outside dawgie.context the live revision is assigned only by code of the reload step (reached from FSM.reload, not from FSM.load); nothing notify_all calls per hand changes the idle list it walks',
     'C14': 'no receive loop consumes a local copy of a buffer that a phase reached from the loop also writes',
-    'C15': 'every work-set assignment stores a container constructed for that node',
-    'C16': 'each rule_NN makes the observations recorded for it (table); main puts the root of --ae-dir at the front of sys.path before scanning; no handler in dawgie.pl.scan swallows a failing import of a task module',
-    'C17': 'the SQL range terms are half open with one placeholder per pushed bound; front-end callers of find hand the page on unreordered; the search path keeps no state between calls (no memoisation)',
-    'C18': 'the history read path keeps no state between calls; complete reads no reply-dependent timing key before the journal entry is written; the history end points relabel the zone of a bound only where it is known to be naive',
-    'C19': 'the certificate handed to sanctioned keeps the None marker of an anonymous caller',
-    'C20': "the monthly (year, month) candidate is this or next month with an exact year carry for all 12 months; a due event's node is queued on every path; every timer is armed with a wrapper constructed for it; the boot token tested and stored identifies the event (not just the algorithm name)",
+    'C15': 'every work-set assignment stores a container constructed for that node; db.targets() drops exactly the reserved names (truth table); Version defines all six comparisons and comes first in the MRO',
+    'C16': 'each rule_NN makes the observations recorded for it (table); main puts the root of --ae-dir at the front of sys.path before scanning; no handler in dawgie.pl.scan swallows a failing import of a task module; automatic compares the changeset with the checked-out HEAD; rule_06 accepts the task package itself and its sub-modules',
+    'C17': 'the SQL range terms are half open with one placeholder per pushed bound; front-end callers of find hand the page on unreordered; the search path keeps no state between calls (no memoisation); shelve search resolves names by equality of the dissected field',
+    'C18': 'the history read path keeps no state between calls; complete reads no reply-dependent timing key before the journal entry is written; the history end points relabel the zone of a bound only where it is known to be naive; chronicle.append refuses a message only for missing keys',
+    'C19': 'the certificate handed to sanctioned keeps the None marker of an anonymous caller; security.clients() returns the configured certificates unfiltered',
+    'C20': "the monthly (year, month) candidate is this or next month with an exact year carry for all 12 months; a due event's node is queued on every path; every timer is armed with a wrapper constructed for it; the boot token tested and stored identifies the event (not just the algorithm name); every constructed moment is aware by construction; an unknowable event skips only itself",
 }
 
 # properties whose module is finished, reviewed and clean on the tree
